@@ -21,6 +21,7 @@ FN1 = ["neg", "pos", "conj", "proj", "abs", "arg", "norm", "exp", "log", "log10"
        "asin", "acos", "atan", "sinh", "cosh", "tanh", "asinh", "acosh", "atanh"]
 TYPES = ["float", "double"]
 PARTS = ["ADDSUB", "MUL", "DIV", "MISC"]
+MTYPES = ["F", "D", "I", "L"]       # float, double, int, long double (typedefs c10::ty_F ...)
 
 
 # ---------------------------------------------------------------------------------------------------------
@@ -51,6 +52,23 @@ def entries():
             for k1 in ["KV", "KR"]:
                 out.append(("CMPDS_INT", (op, k1, b1)))
             out.append(("STDF", (op, b1)))
+        # aliasing forms of the compound assignments (one operand (a,b)); the first entry of each (flags) group is the
+        # binary operator on two separate copies, which the aliased forms are compared with
+        for b1, b2 in itertools.product(FLAGS, FLAGS):
+            out.append(("ALIAS_BASE", (op, b1, b2)))
+            if b1 == b2:
+                for k1 in ["KV", "KR"]:
+                    out.append(("ALIAS_SELF", (op, k1, b1)))            # z op= z, the same object
+                out.append(("ALIAS_LHSREF", (op, b1, b2)))              # reference closure over z's parts op= z
+            for k2 in ["KR", "KC"]:
+                out.append(("ALIAS_RHSREF", (op, b1, k2, b2)))          # z op= (const) reference closure over z's own parts
+                if b1 == b2:
+                    out.append(("ALIAS_REF2", (op, b1, k2, b2)))        # two closures over the same storage
+        for b1 in FLAGS:
+            for part in ["0", "1"]:
+                out.append(("ALIAS_SBASE", (op, b1, part)))
+                for k1 in ["KV", "KR"]:
+                    out.append(("ALIAS_SPART", (op, k1, b1, part)))      # z op= z.real() / z.imag()
     for b1, b2 in itertools.product(FLAGS, FLAGS):
         for k1, k2 in itertools.product(["KV", "KR"], KINDS):
             out.append(("ASG", (k1, b1, k2, b2)))
@@ -76,6 +94,18 @@ def entries():
             out.append(("POWSC", (k1, b1)))
             out.append(("ACC", (k1, b1)))
     out.append(("ACCSTD", ()))
+    # mixed value types: == and != for every ordered pair of distinct types in {float, double, int, long double}
+    for t1, t2 in itertools.permutations(MTYPES, 2):
+        for k1, k2 in itertools.product(KINDS, KINDS):
+            out.append(("MEQ", (t1, k1, "false", t2, k2, "false")))
+            out.append(("MNE", (t1, k1, "false", t2, k2, "false")))
+        out.append(("MEQ", (t1, "KV", "true", t2, "KV", "false")))
+        out.append(("MNE", (t1, "KV", "false", t2, "KV", "true")))
+    # binary arithmetic between different value types: ill-formed on the pinned tree (common_xcomplex_t pairs the two
+    # parts of each operand instead of the two operands, xcomplex.hpp:116), probed on every run
+    for op in OPS:
+        for t1, t2 in [("F", "D"), ("D", "F"), ("I", "D"), ("D", "I")]:
+            out.append(("MBIN", (op, t1, t2)))
     return out
 
 
@@ -105,6 +135,22 @@ def wellformed_on_pinned_tree(e):
     if m == "FN1":
         f, k1, b1 = a
         return f != "pos" or k1 == "KV"     # unary + returns its argument through an explicit constructor
+    if m == "ALIAS_BASE":
+        return wellformed_on_pinned_tree(("BIN", (a[0], "KV", a[1], "KV", a[2])))
+    if m == "ALIAS_SELF":
+        op, k1, b1 = a
+        return wellformed_on_pinned_tree(("CMPD", (op, k1, b1, k1, b1)))
+    if m == "ALIAS_RHSREF":
+        op, b1, k2, b2 = a
+        return wellformed_on_pinned_tree(("CMPD", (op, "KV", b1, k2, b2)))
+    if m == "ALIAS_LHSREF":
+        op, b1, b2 = a
+        return wellformed_on_pinned_tree(("CMPD", (op, "KR", b1, "KV", b2)))
+    if m == "ALIAS_REF2":
+        op, b1, k2, b2 = a
+        return wellformed_on_pinned_tree(("CMPD", (op, "KR", b1, k2, b2)))
+    if m == "MBIN":
+        return False
     return True
 
 
@@ -143,6 +189,25 @@ def probe_text(e):
             parts.append("template void v_fn1<%s, f_%s, %s, %s>%s" % (t, a[0], a[1], a[2], io))
         elif m == "ACCSTD":
             parts.append("template void v_accstd<%s>%s" % (t, io))
+        elif m == "ALIAS_BASE":
+            parts.append("template void v_alias_base<%s, op_%s, %s, %s>%s" % (t, a[0], a[1], a[2], io))
+        elif m == "ALIAS_SELF":
+            parts.append("template void v_alias_self<%s, op_%s, %s, %s>%s" % (t, a[0], a[1], a[2], io))
+        elif m in ("ALIAS_RHSREF", "ALIAS_REF2"):
+            fn = "v_alias_rhsref" if m == "ALIAS_RHSREF" else "v_alias_ref2"
+            parts.append("template void %s<%s, op_%s, %s, %s, %s>%s" % (fn, t, a[0], a[1], a[2], a[3], io))
+        elif m == "ALIAS_LHSREF":
+            parts.append("template void v_alias_lhsref<%s, op_%s, %s, %s>%s" % (t, a[0], a[1], a[2], io))
+        elif m == "ALIAS_SBASE":
+            parts.append("template void v_alias_sbase<%s, op_%s, %s, %s>%s" % (t, a[0], a[1], a[2], io))
+        elif m == "ALIAS_SPART":
+            parts.append("template void v_alias_spart<%s, op_%s, %s, %s, %s>%s" % (t, a[0], a[1], a[2], a[3], io))
+        elif m in ("MEQ", "MNE"):
+            if t == TYPES[0]:
+                parts.append("template bool m_cmp<ty_%s, %s, %s, ty_%s, %s, %s, %s>(const long double*);" % (a[0], a[1], a[2], a[3], a[4], a[5], "true" if m == "MNE" else "false"))
+        elif m == "MBIN":
+            if t == TYPES[0]:
+                parts.append("template void m_bin<ty_%s, ty_%s, op_%s>(const long double*, long double*);" % (a[1], a[2], a[0]))
         else:
             raise ValueError(m)
     return " ".join(parts)
@@ -221,7 +286,8 @@ def build_part(gendir, t, part):
 def build_all(ctx, which=None):
     enabled, ill, newly, _ = manifest(ctx)
     gendir = gen_inc(enabled)
-    todo = [(t, p) for t in TYPES for p in PARTS if which is None or tag_of(t, p) == which]
+    todo = [(t, p) for t in TYPES for p in PARTS] + [("double", "MIXED")]
+    todo = [(t, p) for t, p in todo if which is None or tag_of(t, p) == which]
     try:
         bins = vlib.parallel([(lambda t=t, p=p: build_part(gendir, t, p)) for t, p in todo], workers=8)
     except vlib.HarnessError as ex:
@@ -237,7 +303,7 @@ def build_all(ctx, which=None):
 def run(ctx):
     t0 = time.time()
     bins, enabled, ill, newly = build_all(ctx)
-    ctx.note("build (probes + 8 harness parts): %.0fs" % (time.time() - t0))
+    ctx.note("build (probes + 9 harness parts): %.0fs" % (time.time() - t0))
     thorough = ctx.tier == "thorough"
     nshard = {"ADDSUB": 6, "MUL": 12, "DIV": 12, "MISC": 30} if thorough else {"ADDSUB": 1, "MUL": 2, "DIV": 2, "MISC": 3}
     deadline = int(time.time() + max(30, ctx.time_left() - 90))
@@ -249,6 +315,10 @@ def run(ctx):
             for k in range(n):
                 args = ["--tier", ctx.tier, "--shard", str(k), str(n), "--deadline", str(deadline)]
                 jobs.append(lambda b=bins[(t, part)], a=args, tg=tag_of(t, part): ctx.run_harness(b, a, tag=tg))
+    nm = 8 if thorough else 4
+    for k in range(nm):
+        args = ["--tier", ctx.tier, "--shard", str(k), str(nm), "--deadline", str(deadline)]
+        jobs.append(lambda a=args: ctx.run_harness(bins[("double", "MIXED")], a, tag=tag_of("double", "MIXED")))
     vlib.parallel(jobs, workers=min(16, vlib.NCPU))
     # deterministic choice of the reported example per signature, whatever order the shards finished in
     ctx.viols.sort(key=lambda v: (v["sig"], v["harness"] or "", v["args"]))
